@@ -34,6 +34,7 @@ def knobs_from(rng, tier):
         'stall_p': rng.choice([0.0, 0.0, 0.002, 0.01]),
         'trace': trace,
         'launch_delay': rng.choice([0.0, 0.0, 5.0]),
+        'pool_delay_p': rng.choice([0.0, 0.0, 0.02, 0.1, 0.1]),
         'start_delay': rng.choice([0.0, 1.0]),
     }
 
@@ -50,6 +51,7 @@ def setup_run(case, schedule, opts, tag='run'):
     K = simk.new_kernel(seed, preempt_p=knobs.get('preempt_p', 0.1), stall_p=knobs.get('stall_p', 0.0),
                         max_steps=opts.get('max_steps', 3_000_000), max_vtime=opts.get('max_vtime', 40_000.0),
                         schedule=schedule)
+    K.pool_delay_p = knobs.get('pool_delay_p', 0.0)
     R.REC = R.Recorder()
     R.install_fs_seams(root)
     R.register_backends()
@@ -76,6 +78,7 @@ def finish_run(simk, R, K, root, result):
     c['kernel.threads'] = K.nthreads
     c['fault.stall'] = K.stalls
     c['fault.preempt'] = K.preempts
+    c['fault.pool_task_delayed'] = K.pool_delays
     if K.stop_reason:
         c['stop.%s' % K.stop_reason] = 1
     result['counters'] = c
